@@ -856,6 +856,118 @@ def expand_kwargs_dicts(fn, known_locals):
   return fn
 
 
+def substitute_aliases(fn, known_locals):
+  """P = X[c]  ... P[j] = v ... P[k] ...   ->   X[c][j] = v ... X[c][k]
+  for an unknown single-assignment local P that only names an element of a
+  container: X is a name that is neither re-bound after the definition nor
+  changed at its own level anywhere in the function (no `X[i] = ...`,
+  `del X[i]`, X.append / pop / ...), c is a constant or a name that is not
+  re-assigned afterwards, and every use of P comes after the definition in its
+  block.  X[c] is then the same object at every use: the alias is only a
+  name for it."""
+  import copy as _copy
+  params = {a.arg for a in ast.walk(fn.args) if isinstance(a, ast.arg)}
+  again = True
+  rounds = 0
+  while again and rounds < 8:
+    again = False
+    rounds += 1
+    stores = {}
+    for n in ast.walk(fn):
+      if isinstance(n, ast.Name) and isinstance(n.ctx, (ast.Store, ast.Del)):
+        stores[n.id] = stores.get(n.id, 0) + 1
+    for owner in ast.walk(fn):
+      for f in ('body', 'orelse', 'finalbody'):
+        block = getattr(owner, f, None)
+        if not (isinstance(block, list) and block and isinstance(
+            block[0], ast.stmt)):
+          continue
+        for i, s in enumerate(block):
+          if not (isinstance(s, ast.Assign) and len(s.targets) == 1 and
+                  isinstance(s.targets[0], ast.Name) and isinstance(
+                      s.value, ast.Subscript) and isinstance(
+                          s.value.value, ast.Name)):
+            continue
+          name, x = s.targets[0].id, s.value.value.id
+          idx = s.value.slice
+          if name in known_locals or name in params or stores.get(
+              name, 0) != 1 or x == name:
+            continue
+          if not (isinstance(idx, ast.Constant) or isinstance(idx, ast.Name)
+                  or (isinstance(idx, ast.UnaryOp) and isinstance(
+                      idx.operand, ast.Constant))):
+            continue
+          # only an alias when it is updated through: otherwise it is an
+          # ordinary local and substitute_new_locals decides
+          through = any(isinstance(n, ast.Subscript) and isinstance(
+              n.ctx, (ast.Store, ast.Del)) and isinstance(
+                  n.value, ast.Name) and n.value.id == name
+                        for n in ast.walk(fn))
+          if not through:
+            continue
+          own_level = False
+          for n in ast.walk(fn):
+            if isinstance(n, ast.Subscript) and isinstance(
+                n.ctx, (ast.Store, ast.Del)) and isinstance(
+                    n.value, ast.Name) and n.value.id == x:
+              own_level = True
+            if isinstance(n, ast.Call) and isinstance(
+                n.func, ast.Attribute) and isinstance(
+                    n.func.value, ast.Name) and n.func.value.id == x and \
+                n.func.attr in ('append', 'extend', 'pop', 'insert', 'remove',
+                                'clear', 'sort', 'reverse'):
+              own_level = True
+          if own_level:
+            continue
+          # re-bound between the definition and the end of the last
+          # statement of this block that uses the alias
+          last = s.lineno
+          for st in block[i + 1:]:
+            if any(isinstance(n, ast.Name) and n.id == name
+                   for n in ast.walk(st)):
+              last = max(last, getattr(st, 'end_lineno', st.lineno))
+          rebound = {n.id for n in ast.walk(fn) if isinstance(n, ast.Name) and
+                     isinstance(n.ctx, (ast.Store, ast.Del)) and
+                     s.lineno < getattr(n, 'lineno', 0) <= last}
+          in_loop = any(isinstance(l, (ast.For, ast.While)) and any(
+              y is s for y in ast.walk(l)) for l in ast.walk(fn))
+          if in_loop:
+            rebound = rebound | {k for k, v in stores.items() if v}
+          if x in rebound or (isinstance(idx, ast.Name) and idx.id in rebound):
+            continue
+          uses_in = [n for st in block[i + 1:] for n in ast.walk(st)
+                     if isinstance(n, ast.Name) and n.id == name]
+          uses_all = [n for n in ast.walk(fn) if isinstance(n, ast.Name) and
+                      n.id == name and isinstance(n.ctx, ast.Load)]
+          if not uses_all or len(uses_in) != len(uses_all):
+            continue
+          if any(isinstance(d, (ast.Lambda, ast.FunctionDef)) and d is not fn
+                 and any(isinstance(n, ast.Name) and n.id == name
+                         for n in ast.walk(d)) for d in ast.walk(fn)):
+            continue
+          value = s.value
+
+          class _S(ast.NodeTransformer):
+            def visit_Name(self_, n):
+              if n.id == name and isinstance(n.ctx, ast.Load):
+                v = _copy.deepcopy(value)
+                return ast.copy_location(v, n)
+              return n
+          for k in range(i + 1, len(block)):
+            block[k] = _S().visit(block[k])
+          del block[i]
+          if not block:
+            block.append(ast.copy_location(ast.Pass(), s))
+          ast.fix_missing_locations(fn)
+          again = True
+          break
+        if again:
+          break
+      if again:
+        break
+  return fn
+
+
 def substitute_new_locals(fn, known_locals):
   """single-assignment locals that the inventory does not know are replaced
   by their defining expression"""
@@ -1295,6 +1407,7 @@ def normalise_module(modname, tree):
         coalesce_copies(fn, known)
         forward_attribute_copies(fn, known)
         split_versions(fn, known)
+        substitute_aliases(fn, known)
         substitute_new_locals(fn, known)
   ast.fix_missing_locations(tree)
   return tree
